@@ -324,8 +324,16 @@ def run(w, world_files, opts, host=None, faults=None, crash_at=None, dump=False,
     with open(os.path.join(rundir, "stdout"), "wb") as so, open(os.path.join(rundir, "stderr"), "wb") as se:
         proc = subprocess.Popen(cmd, cwd=cwd, env=env, stdin=subprocess.DEVNULL, stdout=so, stderr=se, start_new_session=True,
                                 umask=host["umask"] if host.get("umask") is not None else -1)  # pylint: disable=consider-using-with
+        # the wall budget of a run grows with the size of its input (about 50 bytes of ODS per row; a 3 000-row world takes 10-15 s on
+        # an idle core, several times that under strace on a loaded machine): 60 s for ordinary worlds, up to 10 minutes for huge ones
+        budget = RUN_TIMEOUT
         try:
-            rc = proc.wait(timeout=RUN_TIMEOUT)
+            if in_rel:
+                budget = RUN_TIMEOUT * max(1.0, min(10.0, os.path.getsize(os.path.join(cwd, in_rel)) / 15000.0))
+        except OSError:
+            pass
+        try:
+            rc = proc.wait(timeout=budget)
         except subprocess.TimeoutExpired:
             timed_out = True
             try:
@@ -339,7 +347,7 @@ def run(w, world_files, opts, host=None, faults=None, crash_at=None, dump=False,
         stdout = fh.read().decode("utf-8", "replace")
     with open(os.path.join(rundir, "stderr"), "rb") as fh:
         stderr = fh.read().decode("utf-8", "replace")
-    res = {"rc": rc, "timed_out": timed_out, "aslr": bool(host.get("aslr", False)), "wall": wall, "stdout": stdout, "stderr": stderr, "argv": argv, "layout": layout,
+    res = {"rc": rc, "timed_out": timed_out, "budget_s": budget, "aslr": bool(host.get("aslr", False)), "wall": wall, "stdout": stdout, "stderr": stderr, "argv": argv, "layout": layout,
            "before": before, "after": after, "child": None, "cmd_env": {k: v for k, v in env.items() if k not in ("LD_PRELOAD", "PATH")}}
     rp = spec["result_path"]
     if os.path.exists(rp):
